@@ -23,6 +23,11 @@ def shards(mode, bin_, n, **kw):
 
 
 PROPS = {
+    "C16": {
+        "runs": [native("c16")],
+        "expect_monitors": ["cam16_model_and_round_trips", "cam16_ucs"],
+        "assumptions": ASSUME_COMMON + ["CAM16 forward model typed from Li et al. 2017 in harness/src/refmodel/cam16.rs and self-tested on the published worked example; surround interpolation between the dark/dim/average table rows as documented by palette"],
+    },
     "C14": {
         "runs": [{"mode": "native-dev", "bin": "c14"}],
         "expect_monitors": ["white_and_neutrals", "rgb_xyz_matrices", "chromatic_adaptation"],
